@@ -23,6 +23,10 @@ const UNITS: [(u8, u128); 6] = [
 pub fn generate(tier: &str, rng: &mut Rng) -> Vec<String> {
     let thorough = tier == "thorough";
     let mut out = Vec::new();
+    // a client-only build of tonic (side crate harness_c09cl, seed C09i): endpoint timeout x caller timeout, ms
+    for (e, c) in [("200", "-"), ("30000", "50"), ("-", "3000"), ("100", "5000"), ("1", "1"), ("-", "1"), ("60000", "60000"), ("7", "-"), ("2500", "2499"), ("2499", "2500")] {
+        out.push(format!("featc {} {}", e, c));
+    }
     // corpus: witnesses of earlier findings
     for v in ["+5S", "+0n", "+99999999H", "-1S", "5", "S", "", "123456789S", "5s", "5 S", " 5S", "0H"] {
         out.push(format!("parse {}", hex(v.as_bytes())));
@@ -151,7 +155,30 @@ fn dur(ns: u128) -> Duration {
     Duration::new((ns / 1_000_000_000) as u64, (ns % 1_000_000_000) as u32)
 }
 
+/// `featc …`: answered by the side binary of ../harness_c09cl (a client-only build of tonic), one process per case
+fn execute_featc(case: &str) -> String {
+    let rel = "harness_c09cl/target/debug/c09cl";
+    let mut roots: Vec<std::path::PathBuf> = Vec::new();
+    if let Ok(exe) = std::env::current_exe() {
+        // <root>/harness/target/debug/harness
+        if let Some(r) = exe.ancestors().nth(4) {
+            roots.push(r.to_path_buf());
+        }
+    }
+    roots.push(std::path::Path::new(env!("CARGO_MANIFEST_DIR")).join(".."));
+    let Some(bin) = roots.into_iter().map(|r| r.join(rel)).find(|p| p.is_file()) else {
+        return "side-binary-missing".into();
+    };
+    match std::process::Command::new(bin).args(case.split(' ')).output() {
+        Ok(o) if o.status.success() => String::from_utf8_lossy(&o.stdout).trim().to_string(),
+        _ => "side-process-died".into(),
+    }
+}
+
 pub fn execute(case: &str) -> String {
+    if case.starts_with("featc ") {
+        return execute_featc(case);
+    }
     let t: Vec<&str> = case.split(' ').collect();
     if let Some(r) = audit::execute(&t) {
         return r;
